@@ -1,7 +1,7 @@
 //! Whole runs of find against the composed specification (spec/FindSem.tla): random trees with measured
 //! attributes x random expressions over real tests and output actions.
 //! Input: {tree (nodes may carry age:[s,ns] = now - mtime), roots, cfg (+ syn, nowoff:[s,ns]),
-//!         words:[{k:"op",t} | {k:"test",q:{..}} | {k:"glob",on,pat,fold} | {k:"regex",ast,fold,text} | {k:"const",v} | {k:"prune"}
+//!         words:[{k:"op",t} | {k:"test",q:{..}} | {k:"glob",on,pat,fold} | {k:"regex",ast,fold,text} | {k:"const",v} | {k:"gopt",o,n} | {k:"prune"}
 //!         | {k:"quit"} | {k:"print",delim,file} | {k:"printf",fmt,file}]}   file: 0 = standard output, 1|2 = -fprint* to ../F1 | ../F2
 //! Observation: {out:[bytes], files:[{there,b}..], exit, diag, attrs:[..], now:[s,ns], users:[uid..], groups:[gid..]}
 use super::pglob::cps_to_string;
@@ -75,6 +75,12 @@ pub fn word_args(w: &Value, tree: &[Node], a: &mut Vec<String>) {
             .to_string(),
         ),
         "const" => a.push(if w["v"].as_bool().unwrap_or(true) { "-true".into() } else { "-false".into() }),
+        "gopt" => {
+            a.push(format!("-{}", w["o"].as_str().unwrap_or("depth")));
+            if w["o"] != "depth" {
+                a.push(w["n"].as_u64().unwrap_or(0).to_string());
+            }
+        }
         "prune" => a.push("-prune".into()),
         "quit" => a.push("-quit".into()),
         "print" => {
@@ -245,7 +251,14 @@ impl Prop for PSem {
         for t in toks {
             let w = match t.as_str() {
                 "not" | "and" | "or" | "comma" | "lp" | "rp" => json!({"k": "op", "t": t}),
-                "true" | "opt" => json!({"k": "const", "v": true}),
+                // a global option inside the expression: true where it stands, in force everywhere
+                "opt" => match rng.below(4) {
+                    0 => json!({"k": "gopt", "o": "depth"}),
+                    1 => json!({"k": "gopt", "o": "maxdepth", "n": rng.below(4)}),
+                    2 => json!({"k": "gopt", "o": "mindepth", "n": rng.below(3)}),
+                    _ => json!({"k": "const", "v": true}),
+                },
+                "true" => json!({"k": "const", "v": true}),
                 "false" => json!({"k": "const", "v": false}),
                 "prune" => json!({"k": "prune"}),
                 "quit" => json!({"k": "quit"}),
